@@ -66,3 +66,40 @@ def unoptimised_teal_features(teal_text: str):
                     and ins[loads[0] - 1].args[0] == s:
                 feats.add("optimizer-cancels-slot-with-extra-store")
     return feats
+
+
+def legality_features(rec: Dict[str, Any], version: int) -> List[str]:
+    """input-side features for C04 known findings (recipe + requested version only)"""
+    from .teal import langspec as LS
+    feats = set()
+    has_loop = [False]
+    nested_cond = [False]
+    new_itxn_field = [False]
+    CONDS = ("If", "IfChain", "Cond")
+
+    def walk(e, in_cond_arm):
+        if isinstance(e, (list, tuple)):
+            if e and isinstance(e[0], str):
+                k = e[0]
+                if k in ("While", "For"):
+                    has_loop[0] = True
+                if k in CONDS and in_cond_arm:
+                    nested_cond[0] = True
+                if k == "ItxnField" and e[1] in LS.TXN_FIELDS and LS.TXN_FIELDS[e[1]][0] > version:
+                    new_itxn_field[0] = True
+                for c in e[1:]:
+                    walk(c, in_cond_arm or k in CONDS)
+            else:
+                for c in e:
+                    walk(c, in_cond_arm)
+
+    walk(rec.get("main"), False)
+    for sd in rec.get("subs", {}).values():
+        walk(sd["body"], False)
+    if version < 4 and has_loop[0]:
+        feats.add("loop-below-v4")
+    if version < 4 and nested_cond[0] and not has_loop[0]:
+        feats.add("nested-conditional-below-v4")
+    if new_itxn_field[0]:
+        feats.add("itxn-field-newer-than-version")
+    return sorted(feats)
